@@ -95,7 +95,7 @@ UNPROVED = (
     "fp_suffix_swap_partial: the suffix is judged after the language label is stripped and hdf - excluded regions really differ "
     "(KF-C06-2, KF-C06-3, fullSuffixSwap_fails). Port / label / item / suffix theorems are about Parsed records: the bridging from "
     "the string transformation to the component transformation is CPython, and under platform_aware=True the commutation of T with "
-    "the facebook/youtube rewriting is explored by the oracle, not proved. Escaped capitals: since e39f899 normalize_url(lowercase="
+    "the facebook/youtube rewriting is explored by the oracle, not proved (KF-C06-4: it reads the string before unescaping). Escaped capitals: since e39f899 normalize_url(lowercase="
     "True) folds the case right after unescaping; the equation fp('/%41') = fp('/a') is covered by the oracle (C04 family) and by "
     "fp_lower_closed (result closed under lower), not by a general theorem."
 )
